@@ -94,3 +94,57 @@ Theorem C07_carrier_loss_is_decided_on_the_oldest_symbol : forall me s g bit po 
   (fst (sq_input me s bit po pc) = SqDropped <-> snd (nth 0 (shift_in g (bit, pc)) (false, false)) = false).
 Proof. exact drop_decided_on_oldest_symbol. Qed.
 Print Assumptions C07_carrier_loss_is_decided_on_the_oldest_symbol.
+
+(** with the sync locked (the framer is reading), the byte clock running and power recorded with the oldest
+    symbol of the line, one symbol gives: a byte — the oldest eight symbols, LSb first — when the clock is at
+    0, "reading" otherwise; the clock advances modulo 8, the lock and the alignment are kept *)
+Theorem C07_locked_squelch_step : forall me s g bit po pc c,
+  aligned s g -> sq_lock s = true -> sq_clock s = Some c -> (c < 8)%N ->
+  front_power g (bit, pc) = true ->
+  exists hb s',
+    sq_input me s bit po pc = ((if (c =? 0)%N then SqReady false hb else SqReading), s')
+    /\ sq_clock s' = Some ((c + 1) mod 8)%N /\ sq_lock s' = true /\ aligned s' (shift_in g (bit, pc))
+    /\ (c = 0%N -> (hb < 256)%N /\ forall i, (i < 8)%nat -> N.testbit hb (N.of_nat i) = fst (nth i (shift_in g (bit, pc)) (false, false))).
+Proof. exact locked_step. Qed.
+Print Assumptions C07_locked_squelch_step.
+
+(** hence over any number of symbols: exactly one byte every eight symbols, each the next eight symbols of the
+    bit stream — the bytes handed to the framer tile the received bits, none skipped, none overlapping *)
+Theorem C07_one_byte_every_eight_symbols : forall me (xs : list (bool * bool * bool)) s g c,
+  aligned s g -> sq_lock s = true -> sq_clock s = Some c -> (c < 8)%N ->
+  Forall (fun gl => snd (nth 0 gl (false, false)) = true) (lines_after g (map (fun t => (fst (fst t), snd t)) xs)) ->
+  sq_lock (feed me s xs) = true /\ sq_clock (feed me s xs) = Some ((c + N.of_nat (length xs)) mod 8)%N
+  /\ aligned (feed me s xs) (fold_left (fun g t => shift_in g (fst (fst t), snd t)) xs g).
+Proof. exact one_byte_every_eight_symbols. Qed.
+Print Assumptions C07_one_byte_every_eight_symbols.
+
+(** * Ticks to bytes: while a burst is read the framer is called exactly once per eight symbols *)
+From Sameold Require Import Model.Receiver Proofs.LinkReadP.
+
+(** eight symbols from a byte boundary (sync locked, power recorded with the oldest symbols): ONE call of
+    the framer, with the equaliser byte of the first of them; the seven others leave the framer alone; and a
+    byte boundary again — so the burst is the sequence of equaliser bytes at the byte-clock instants, in
+    order, none dropped, none invented *)
+Theorem C07_eight_symbols_one_framer_step : forall c s g msg inv t ts,
+  aligned s g -> sq_lock s = true -> sq_clock s = Some 0%N ->
+  length ts = 7%nat ->
+  Forall (fun gl => snd (nth 0 gl (false, false)) = true)
+         (lines_after g (map (fun t => (t_bit t, t_pclose t)) (t :: ts))) ->
+  fst (framer_step (fc c) (FDataRead msg inv) (t_eq t)) = LReading ->
+  let '(s', f') := link_run c s (FDataRead msg inv) (t :: ts) in
+  f' = snd (framer_step (fc c) (FDataRead msg inv) (t_eq t))
+  /\ sq_lock s' = true /\ sq_clock s' = Some 0%N
+  /\ aligned s' (fold_left (fun g t => shift_in g (t_bit t, t_pclose t)) (t :: ts) g).
+Proof. exact eight_symbols_one_framer_step. Qed.
+Print Assumptions C07_eight_symbols_one_framer_step.
+
+(** acquisition: unsynchronised and unlocked, power above the open threshold — at the symbol that completes
+    the sync word in the delay line the squelch declares sync, the byte clock starts there (so every later
+    byte boundary is a byte boundary of the transmission), and the byte handed on is the sync word's oldest *)
+Theorem C07_sync_at_the_symbol_completing_the_sync_word : forall me s g bit pc,
+  aligned s g -> sq_lock s = false -> sq_clock s = None ->
+  (forall i, (i < 32)%nat -> fst (nth i (shift_in g (bit, pc)) (false, false)) = N.testbit SYNC_WORD (N.of_nat i)) ->
+  exists s', sq_input me s bit true pc = (SqReady true (SYNC_WORD mod 256)%N, s') /\ sq_clock s' = Some 1%N
+             /\ aligned s' (shift_in g (bit, pc)).
+Proof. exact sync_at_the_symbol_completing_the_sync_word. Qed.
+Print Assumptions C07_sync_at_the_symbol_completing_the_sync_word.
